@@ -24,10 +24,13 @@ partial def parseXml (e : SExp) : Option XmlNode :=
     pure (.elem ns tag attrs text kids)
   | _ => none
 
+/-- Attributes are printed sorted by name: their order in a serialised element carries no meaning (and no property
+    speaks about it), so neither side of the comparison depends on the order a writer happens to emit them in. -/
 partial def showXml : XmlNode → String
   | .comment s => par ["c", S s]
   | .elem ns tag attrs text kids =>
-    par ["e", optS ns, S tag, par (attrs.map (fun kv => par [S kv.1, S kv.2])), optS text, par (kids.map showXml)]
+    par ["e", optS ns, S tag, par ((attrs.mergeSort (fun a b => !(b.1 < a.1))).map (fun kv => par [S kv.1, S kv.2])),
+         optS text, par (kids.map showXml)]
 
 def parseNsCtx (pfx nsmap : SExp) : Option NsCtx := do
   let p ← pfx.optStr?
